@@ -50,6 +50,10 @@ CHECKS = {
    "(a) explicit-state BFS by history replay over the real TrapSet bound to the real simulated system against a reference merge model; (b) exhaustive signal injection at every simulated system call index (and pairs) of scripts with traps",
    "(a) For each signal class {INT, QUIT, TERM, CHLD, TSTP, USR1, KILL, STOP} x initial disposition {default, ignored} and 4 signal pairs, every history up to depth 5 (quick) / 8 (thorough) over {set_action Default/Ignore/Command with and without override, peek_state, enable/disable each internal-disposition group, enter_subshell with each option pair} is replayed on a fresh TrapSet + Concurrent<VirtualSystem>; after every operation the disposition actually installed in the simulated process and its signal mask are read back and must equal max(internal, user action) with caught <=> blocked, return values (InitiallyIgnored, SIGKILL/SIGSTOP refusal) must agree, and the trap set's recorded action must match. (b) 8 scripts (straight-line, loops, functions, command substitution, subshell, pipeline, case, multi-command trap action, EXIT trap): the trapped signal is raised on the shell at every system-call index after the trap is installed, and at pairs of indices; the markers outside the trap with their $? and the exit status must equal the undisturbed run, and the trap must run exactly once per delivery (1..n when n deliveries may coalesce; 0..1 once no command boundary is left).",
    "Reference merge model trusted; injection points are the simulator's syscall boundaries (complete because caught signals are blocked outside select); injections before the trap is installed are excluded (default action + a simulator limitation covered under C19)."),
+ "C03": ("exploration", "DESIGN.md §3 C03",
+   "bounded-exhaustive enumeration of expression trees on boundary operands (each printed with minimal parentheses and fully parenthesised) against an exact i128 evaluator; exhaustive enumeration of all short strings for totality",
+   "All expression trees of depth <= 1 over 18 binary value operators, 11 assignment forms, 4 prefix operators, prefix/postfix ++/--, and ?: on 20 boundary operands (0,1,2,3,5,61..65,2^31,2^32+1,2^62,2^63-1,2^63,-1,-(2^63-1), variables a,b in 5 environments, unset u), a depth-2 slice (thorough: all depth-1 trees as operands; plus a pruned depth 3), and all pairs of binary operators in both association shapes; each tree is evaluated by yash_arith::eval once with the minimal parentheses C precedence/associativity requires and once fully parenthesised. The exact i128 model decides the value, or that the result must be an error (overflow, /0, %0, MIN/-1, MIN%-1, shift count <0 or >=64, shifting a negative value or into the sign bit); short-circuit operands are planted with assignments and 1/0 and must leave no trace; variable side effects are compared. $((x)) and $(($x)) are compared for decimal/octal/hex/signed spellings, also through the whole shell. Every string of length <= 4 over 26 token characters (475k) must not panic; lengths <= 2 (quick) / 3 (thorough) also go through the whole shell, whose error path slices the source by byte ranges.",
+   "i128 evaluator trusted; right shift of negatives and unsequenced modify+read are skipped as unspecified."),
 }
 
 NOT_YET = {
